@@ -535,6 +535,7 @@ func c08() {
 	c08Chain()
 	c08UnknownThenKnown()
 	c08ContractorReorg()
+	c08CrossContract()
 	c08Concurrent()
 	run.DistinctN = int64(len(outcomes))
 	run.Extra["sequences"] = len(seqs)
